@@ -2,6 +2,7 @@ package harness
 
 import (
 	"fmt"
+	"regexp"
 	"sort"
 	"strings"
 
@@ -152,8 +153,12 @@ func (w *WF) closure() map[string]bool {
 		}
 	}
 	for _, t := range w.RunTo {
+		var re *regexp.Regexp
+		if w.RunToMode == 1 {
+			re = regexp.MustCompile(t)
+		}
 		for i := range w.Nodes {
-			if w.Nodes[i].Name == t {
+			if (re == nil && w.Nodes[i].Name == t) || (re != nil && re.MatchString(w.Nodes[i].Name)) {
 				visit(i)
 			}
 		}
